@@ -141,6 +141,20 @@ func judgeC04(c caseC04, v kit.FeeVerdict, accepted bool, credits map[string]*bi
 		// nothing to compare
 		return nil
 	}
+	if v.AmbiguousValue {
+		// an amount spelling with two readings was accepted: whichever reading was taken, what
+		// was credited must be what was deducted
+		total := new(big.Int)
+		for _, x := range credits {
+			total.Add(total, x)
+		}
+		A, _ := new(big.Int).SetString(c.Amount, 10)
+		if new(big.Int).Add(total, forwarded).Cmp(A) != 0 {
+			return fmt.Errorf("credits %v and the amount left %s do not add up to the amount %s", credits, forwarded, c.Amount)
+		}
+		rec.Label("verdict", "consistent (amount spelling with two readings)")
+		return nil
+	}
 	want := sumCredits(v.Credits)
 	if !sameCredits(want, credits) {
 		return fmt.Errorf("fee credits are not exact: observed %v, expected %v", credits, want)
@@ -323,7 +337,19 @@ func genC04(t *rapid.T, env string, hugeOK bool) caseC04 {
 		rcptClasses = kit.RecipientClasses
 	}
 	c := caseC04{Amount: A.String(), Denom: denom, Env: env}
-	switch pick(t, "shape", []string{"valid", "valid", "boundary", "boundary", "hostile", "count", "overflow"}) {
+	switch pick(t, "shape", []string{"valid", "valid", "boundary", "boundary", "hostile", "count", "overflow", "spelling"}) {
+	case "spelling":
+		// an otherwise valid list in which one fixed amount is written in a spelling on which
+		// integer parsers disagree: whatever the module makes of it, validation and computation
+		// must read the same number
+		fees := kit.ValidFees(t, "fees", A, rcptClasses)
+		if len(fees) >= kit.MaxFeeEntries {
+			fees = fees[:kit.MaxFeeEntries-1]
+		}
+		r, _ := kit.Recipient(t, "spelling/rcpt", rcptClasses)
+		at := rapid.IntRange(0, len(fees)).Draw(t, "spelling/at")
+		fees = append(fees[:at], append([]kit.Fee{{Recipient: r, Fixed: kit.NumberSpelling(t, "spelling/v")}}, fees[at:]...)...)
+		c.Fees = fees
 	case "valid":
 		c.Fees = kit.ValidFees(t, "fees", A, rcptClasses)
 	case "boundary":
